@@ -437,6 +437,57 @@ theorem result_independent_of_fuel (procs : List Proc) (f1 f2 nvars : Nat) (prog
   rw [a] at b
   exact Option.some.inj b
 
+/-! ### arrays -/
+
+/-- a subscript outside the declared bounds is a run-time error, for reading and for writing -/
+theorem idx_out_of_range_traps (env : Env) (base : Nat) (lo hi k : Int) (i : Expr) (hi' : eval env i = .ok k)
+    (hout : k < lo ∨ k > hi) : eval env (.idx base lo hi i) = .error "INDEX_OUT_OF_RANGE" := by
+  simp [eval, hi', elemCell, hout]
+
+theorem assign_out_of_range_traps (procs : List Proc) (fuel : Nat) (env : Env) (out : List Int) (base : Nat) (lo hi k x : Int)
+    (i e : Expr) (he : eval env e = .ok x) (hi' : eval env i = .ok k) (hout : k < lo ∨ k > hi) :
+    exec procs fuel env out (.assignIdx base lo hi i e) = some ⟨env, out, .trap "INDEX_OUT_OF_RANGE"⟩ := by
+  simp [exec, he, hi', elemCell, hout]
+
+/-- distinct subscripts within the bounds name distinct cells, all of them inside the array's storage -/
+theorem elemCell_injective (env : Env) (base : Nat) (lo hi k1 k2 : Int) (c1 c2 : Nat)
+    (h1 : elemCell env base lo hi k1 = .ok c1) (h2 : elemCell env base lo hi k2 = .ok c2) (hne : k1 ≠ k2) :
+    c1 ≠ c2 ∧ base ≤ c1 ∧ c1 ≤ base + (hi - lo).toNat := by
+  unfold elemCell at h1 h2
+  split at h1
+  · cases h1
+  · split at h1
+    · split at h2
+      · cases h2
+      · split at h2
+        · cases h1; cases h2
+          refine ⟨?_, by omega, by omega⟩
+          omega
+        · cases h2
+    · cases h1
+
+/-- an element reads back what was assigned to it -/
+theorem assignIdx_then_idx (procs : List Proc) (fuel : Nat) (env : Env) (out : List Int) (base : Nat) (lo hi k x : Int)
+    (i e : Expr) (c : Nat) (he : eval env e = .ok x) (hi' : eval env i = .ok k) (hc : elemCell env base lo hi k = .ok c) :
+    ∃ env', exec procs fuel env out (.assignIdx base lo hi i e) = some ⟨env', out, .normal⟩ ∧
+      elemCell env' base lo hi k = .ok c ∧ getVar env' c = x := by
+  refine ⟨setVar env c x, by simp [exec, he, hi', hc], ?_, ?_⟩
+  · unfold elemCell at hc ⊢
+    rw [setVar_length]
+    exact hc
+  · have hlt : c < env.length := by
+      unfold elemCell at hc
+      split at hc
+      · cases hc
+      · split at hc
+        · cases hc; assumption
+        · cases hc
+    exact getVar_setVar_eq env c x hlt
+
+/-- ... and every other element and variable keeps its value -/
+theorem assignIdx_frame (env : Env) (c c' : Nat) (x : Int) (h : c' ≠ c) : getVar (setVar env c x) c' = getVar env c' :=
+  getVar_setVar_ne env c c' x h
+
 /-! ### procedures -/
 
 /-- what a CALL does, given what its body did -/
